@@ -25,7 +25,8 @@ CALLS = ["simple_bind", "sasl_external_bind", "search", "streaming_search", "str
 MUST_COUNT = (["call:" + c for c in CALLS] + ["stream-call:next", "stream-call:result", "stream-call:lastid",
               "mod:with_controls", "mod:with_timeout", "mod:with_search_options",
               "ctor:ws", "ctor:fus", "ctor:new", "ctor:fu",
-              "srv:ok", "srv:e32", "srv:sil", "srv:dis", "srv:k1", "srv:k2", "srv:ref", "srv:k1s", "srv:k1d",
+              "srv:ok", "srv:e32", "srv:sil", "srv:dis", "srv:k1", "srv:k2", "srv:ref", "srv:k1s", "srv:k1d", "srv:p2",
+              "paged-search-second-page-requested",
               "outcome:ok", "outcome:timeout", "outcome:conn", "outcome:local", "outcome:eos", "stream-outcome:timeout"])
 
 
@@ -219,7 +220,7 @@ def run(tier):
     C.harness("sync-run", ["trace", tr3, cf["rand"], rp3], timeout=cf["htmo"])
     rep3 = C.load(rp3)
     chk.report(rep3, "I->S generation: seeded random scripts (3..12 steps) through both APIs")
-    vacuity(chk, rep3, "random", ["call:" + c for c in CALLS] + ["len:12", "ctor:new", "ctor:fu"])
+    vacuity(chk, rep3, "random", ["call:" + c for c in CALLS] + ["len:12", "ctor:new", "ctor:fu", "paged-search-second-page-requested"])
     validate(chk, tr3, os.path.join(d, "tracesync-random.out"), "I->S: TraceSync rejected a pair of transcripts (random scripts)", cf["tmo"])
     os.remove(tr3)
     chk.rule.append("I->S: seeded random scripts of 3..12 steps (all calls, modifiers, behaviours, constructors; silence only together with "
